@@ -18,6 +18,10 @@ jsonable = Union[None, str, bool, float, int,
 
 class Serializer:
 
+    MARKER_KEYS = ('_is_task', '_is_enum', '_is_dict')
+    """Keys that mark the serialized form of a task, an enum member,
+    or a wrapped dict."""
+
     def is_serialized_task(self, serialized: jsonable) -> bool:
         return isinstance(serialized, dict) and bool(serialized.get('_is_task', False))
 
@@ -69,10 +73,16 @@ class Serializer:
         elif isinstance(value, tuple):
             return [self.serialize_value(item) for item in value]
         elif isinstance(value, frozendict):
-            return {
+            serialized_dict = {
                 ensure_dict_key_str(key, exception_type=SerializationError): self.serialize_value(value)
                 for key, value in value.items()
             }
+            if any(serialized_dict.get(marker, False) for marker in self.MARKER_KEYS):
+                # A parameter dict that uses one of the marker keys
+                # is wrapped, so that it is not read back as (and
+                # does not share a cache key with) a task or an enum.
+                return {'_is_dict': True, 'items': serialized_dict}
+            return serialized_dict
         elif isinstance(value, Enum):
             return self.serialize_enum(value)
         elif ((value is None)
@@ -89,11 +99,17 @@ class Serializer:
             return self.deserialize_task(cast(dict[str, jsonable], value), result_meta=None)
         elif self.is_serialized_enum(value):
             return self.deserialize_enum(cast(dict[str, jsonable], value))
+        elif self.is_serialized_dict(value):
+            items = cast(dict[str, jsonable], cast(dict[str, jsonable], value)['items'])
+            return {key: self.deserialize_value(item) for key, item in items.items()}
         elif isinstance(value, list):
             return [self.deserialize_value(item) for item in value]
         elif isinstance(value, dict):
             return {key: self.deserialize_value(item) for key, item in value.items()}
         return value
+
+    def is_serialized_dict(self, serialized: jsonable) -> bool:
+        return isinstance(serialized, dict) and bool(serialized.get('_is_dict', False))
 
     def is_serialized_enum(self, serialized: jsonable) -> bool:
         return isinstance(serialized, dict) and bool(serialized.get('_is_enum', False))
